@@ -193,7 +193,7 @@ def replay(prop, path):
             n, fs, wall = small_trace_check("HookAuthTrace", vec, wd)
         else:
             vec = os.path.join(wd, "hookvec.ndjson")
-            mwh(binp, ["hookvec", seed, 400 if tier == "quick" else 3000, vec])
+            mwh(binp, ["hookvec", seed, 400 if tier == "quick" else 6000, vec])
             n, fs, wall = small_trace_check("HookTrace", vec, wd)
         for f in fs[:8]:
             print("replay finding:", json.dumps(f)[:400])
@@ -390,42 +390,45 @@ def plan(mc_q, mc_t, emit_q, emit_t, walks_q, walks_t, reach=(), scen=(), wide=N
 
 
 W_Q = [("honest", 8, 60), ("chaos", 10, 60), ("admin", 6, 60)]
-W_T = [("honest", 120, 70), ("chaos", 160, 70), ("admin", 80, 70)]
+W_T = [("honest", 300, 80), ("chaos", 500, 80), ("admin", 250, 80)]
 # thorough tier: model checking of the larger focused configurations (MC only where a configuration has too many
 # transitions to replay in minutes) and replay of the medium ones
 FLOW_MC = ["flow_long_t", "flow_amounts_t", "flow_t", "flow_treasury_t", "flow_extras_t", "flow_time_t", "flow_resume_t"]
 FLOW_EMIT = ["flow_t", "flow_extras_t", "flow_time_t"]
 IBC_MC = ["ibc_t", "ibc2_t"]
+# tens of millions of transitions each, model checking only (about ten minutes each at 12 workers)
+DEEP_MC = ["flow_deep_t", "ibc_deep_t"]
 IBC_EMIT = ["ibc2_t", "ibc_t"]
 GATE_MC = ["gate_t", "gateadmin_t"]
 GATE_EMIT = ["gate_q", "gateadmin_t"]
 PLANS = {
-    "C01": plan(["flow_q", "ibc_q"], FLOW_MC + IBC_MC, ["flow_q", "ibc_q"], FLOW_EMIT + IBC_EMIT, W_Q, W_T, reach=["HonestOutstanding"]),
-    "C02": plan(["flow_q", "ibc_q", "fees_q"], FLOW_MC + IBC_MC + ["fees_t"], ["flow_treasury_q", "fees_q", "ibc_q"],
-                ["flow_t", "flow_treasury_t", "fees_t"] + IBC_EMIT, W_Q, W_T, reach=["Received"], scen=["KF2"]),
+    "C01": plan(["flow_q", "ibc_q", "ibc_hold_q"], FLOW_MC + IBC_MC + DEEP_MC + ["ibc_hold_q"], ["flow_q", "ibc_q", "ibc_hold_q"], FLOW_EMIT + IBC_EMIT + ["ibc_hold_q"], W_Q, W_T, reach=["HonestOutstanding"]),
+    "C02": plan(["flow_q", "ibc_q", "fees_q", "ibc_hold_q"], FLOW_MC + IBC_MC + ["fees_t", "flow_deep_t", "ibc_hold_q"], ["flow_q", "flow_treasury_q", "fees_q", "ibc_q", "ibc_hold_q"],
+                ["flow_t", "flow_treasury_t", "fees_t", "ibc_hold_q"] + IBC_EMIT, W_Q, W_T, reach=["Received"], scen=["KF2"]),
     "C03": plan(["flow_q", "ibc_q", "same_q", "sender_q", "limits_q"], FLOW_MC + IBC_MC + ["same_t", "sender_q", "limits_q"],
                 ["flow_q", "ibc_q", "same_q", "sender_q", "limits_q"], FLOW_EMIT + IBC_EMIT + ["same_t"], W_Q, W_T),
-    "C04": plan(["flow_q", "limits_q", "limits1_q"], FLOW_MC + ["limits_q", "limits1_q"], ["flow_q", "limits_q", "limits1_q"],
-                ["flow_extras_t", "flow_t", "limits_q", "limits1_q"], W_Q, W_T),
-    "C05": plan(["flow_q", "dust_q"], FLOW_MC + ["dust_q"], ["flow_q", "dust_q"], FLOW_EMIT + ["dust_q"], W_Q, W_T, reach=["Received"]),
-    "C06": plan(["flow_q"], FLOW_MC, ["flow_q"], FLOW_EMIT, W_Q, W_T, reach=["Received"]),
-    "C07": plan(["ibc_q"], IBC_MC, ["ibc_q"], IBC_EMIT + ["ibc_q"], W_Q, W_T, reach=["Refundable"], scen=["KF2"]),
+    "C04": plan(["flow_q", "limits_q", "limits1_q", "downrate_q"], FLOW_MC + ["limits_q", "limits1_q", "downrate_q"], ["flow_q", "limits_q", "limits1_q", "downrate_q"],
+                ["flow_extras_t", "flow_t", "limits_q", "limits1_q", "downrate_q", "flow_resume_t"], W_Q, W_T),
+    "C05": plan(["flow_q", "dust_q"], FLOW_MC + ["dust_q", "flow_deep_t"], ["flow_q", "dust_q"], FLOW_EMIT + ["dust_q"], W_Q, W_T, reach=["Received"]),
+    "C06": plan(["flow_q", "period_q"], FLOW_MC + ["period_q"], ["flow_q", "period_q"], FLOW_EMIT + ["period_q"], W_Q, W_T, reach=["Received"]),
+    "C07": plan(["ibc_q", "ibc_force_q"], IBC_MC + ["ibc_deep_t", "ibc_force_q"], ["ibc_q", "ibc_force_q"], IBC_EMIT + ["ibc_q", "ibc_force_q"], W_Q, W_T, reach=["Refundable"], scen=["KF2"]),
     "C08": plan(["gate_q", "own"], GATE_MC + ["own_t"], ["gate_q", "own"], GATE_EMIT + ["own_t"], W_Q, W_T),
     "C09": plan(["gates_q"], GATE_MC, ["gates_q"], GATE_EMIT, W_Q, W_T, scen=["C09"]),
     "C10": plan(["gate_q"], GATE_MC, ["gate_q"], GATE_EMIT, W_Q, W_T),
-    "C11": plan(["flow_q", "flow_treasury_q", "fees_q", "fee150_q", "zerolst_q"], ["flow_t", "flow_treasury_t", "flow_amounts_t", "fees_t", "fee150_q", "zerolst_q"],
-                ["flow_treasury_q", "fees_q", "fee150_q", "zerolst_q"], ["flow_t", "flow_treasury_t", "fees_t", "fee150_q", "zerolst_q"], W_Q, W_T),
+    "C11": plan(["flow_q", "flow_treasury_q", "fees_q", "fee150_q", "fee100_q", "zerolst_q"], ["flow_t", "flow_treasury_t", "flow_amounts_t", "fees_t", "fee150_q", "fee100_q", "zerolst_q"],
+                ["flow_treasury_q", "fees_q", "fee150_q", "fee100_q", "zerolst_q"], ["flow_t", "flow_treasury_t", "fees_t", "fee150_q", "fee100_q", "zerolst_q"], W_Q, W_T),
     "C12": plan(["own"], ["own_t"], ["own"], ["own_t"], [("admin", 10, 60)], [("admin", 150, 70)]),
     "C13": plan(["treasury_q", "flow_treasury_q"], ["treasury_t", "flow_treasury_q"], ["treasury_q", "flow_treasury_q"], ["treasury_t", "flow_treasury_q"], [], []),
     "C14": plan(["gates_q"], ["gateadmin_t"], [], ["gateadmin_t"], [("admin", 8, 60)], [("admin", 100, 70)]),
-    "C15": plan(["flow_q", "flow_treasury_q"], ["flow_t", "flow_treasury_t", "flow_amounts_t", "flow_resume_t"], ["flow_q", "flow_treasury_q"],
+    "C15": plan(["flow_q", "flow_treasury_q", "resume_q"], ["flow_t", "flow_treasury_t", "flow_amounts_t", "flow_resume_t"], ["flow_q", "flow_treasury_q", "resume_q"],
                 ["flow_t", "flow_treasury_t", "flow_extras_t"], W_Q, W_T),
-    "C16": plan(["flow_q", "gates_q"], FLOW_MC + IBC_MC + GATE_MC, ["flow_treasury_q", "ibc_q", "gates_q", "own", "treasury_q"],
-                ["flow_t", "flow_treasury_t", "flow_extras_t", "ibc2_t", "gate_q", "gateadmin_t", "own_t", "treasury_q"], W_Q, W_T,
+    "C16": plan(["flow_q", "gates_q", "downrate_q"], FLOW_MC + IBC_MC + GATE_MC + ["downrate_q"], ["flow_treasury_q", "ibc_q", "gates_q", "own", "treasury_q", "downrate_q", "fee150_q"],
+                ["flow_t", "flow_treasury_t", "flow_extras_t", "flow_resume_t", "ibc2_t", "gate_q", "gateadmin_t", "own_t", "treasury_q", "downrate_q", "fee150_q"], W_Q, W_T,
                 wide={"quick": [(30, 60, 0), (30, 60, 1)], "thorough": [(400, 80, 0), (400, 80, 1)]}),
     "C17": plan(["flow_q"], ["flow_t"], ["flow_q"], ["flow_t"], [("chaos", 6, 60)], [("chaos", 60, 70)]),
     "C18": plan(["ibc_q"], IBC_MC, [], [], [], [], scen=["C18"]),
-    "C19": plan(["flow_q", "limits1_q"], ["flow_t", "limits1_q"], ["flow_q", "limits1_q"], ["flow_t", "limits1_q", "limits_q"], [("chaos", 8, 60)], [("chaos", 100, 70)]),
+    "C19": plan(["flow_q", "limits1_q", "downrate_q"], ["flow_t", "limits1_q", "downrate_q"], ["flow_q", "limits1_q", "downrate_q"], ["flow_t", "limits1_q", "limits_q", "downrate_q", "flow_resume_t"],
+                [("chaos", 8, 60)], [("chaos", 100, 70)], scen=["C19b"]),
 }
 LEVEL = "model_checking"
 
@@ -572,10 +575,11 @@ def hook_c19(binp, tier, seed, wd):
         mwh(bin_mw, ["walk", fb, seed, runs, steps, mode])
         pairs.append((mode, fa, fb))
     # sub-denoms of every accepted length (incl. ones the chain's token factory refuses), both builds
-    fa, fb = os.path.join(wd, "dual-scen-osmosis.ndjson"), os.path.join(wd, "dual-scen-miniwasm.ndjson")
-    mwh(binp, ["exec", os.path.join(ROOT, "scenarios", "C19.ndjson"), fa])
-    mwh(bin_mw, ["exec", os.path.join(ROOT, "scenarios", "C19.ndjson"), fb])
-    pairs.append(("scen", fa, fb))
+    for sc in ("C19", "C19b"):
+        fa, fb = os.path.join(wd, f"dual-scen{sc}-osmosis.ndjson"), os.path.join(wd, f"dual-scen{sc}-miniwasm.ndjson")
+        mwh(binp, ["exec", os.path.join(ROOT, "scenarios", sc + ".ndjson"), fa])
+        mwh(bin_mw, ["exec", os.path.join(ROOT, "scenarios", sc + ".ndjson"), fb])
+        pairs.append(("scen" + sc, fa, fb))
     nl = 0
     dual_find = []
     for tag, fa, fb in pairs:
@@ -630,7 +634,7 @@ def hook_c19(binp, tier, seed, wd):
     for tag, fb, f in dual_find:
         viols.append((f"dual-{tag}", fb, f))
     # the miniwasm traces are also validated individually (wire atoms) by the caller through extra_traces
-    extra["_extra_traces"] = [(fb, f"miniwasm-{tag}") for tag, fa, fb in pairs if tag != "scen"]
+    extra["_extra_traces"] = [(fb, f"miniwasm-{tag}") for tag, fa, fb in pairs if tag != "scenC19"]
     return extra, viols
 
 
@@ -651,7 +655,7 @@ def small_trace_check(spec, trace, wd, timeout=600):
 
 def hook_c09(binp, tier, seed, wd):
     extra, viols = {}, []
-    nvec = 400 if tier == "quick" else 3000
+    nvec = 400 if tier == "quick" else 6000
     hv = os.path.join(wd, "hookvec.ndjson")
     mwh(binp, ["hookvec", seed, nvec, hv])
     n, fs, wall = small_trace_check("HookTrace", hv, wd)
@@ -695,7 +699,7 @@ def hook_c17(binp, tier, seed, wd):
     extra["paging_theorem"] = {"stores": int(m.group(2)), "max_batches": 5 if tier == "quick" else 6}
     log(f"[query] paging completeness theorem holds on all {m.group(2)} stores ({wall:.1f}s)")
     qs = os.path.join(wd, "qsweep.ndjson")
-    runs, steps = (4, 40) if tier == "quick" else (40, 80)
+    runs, steps = (4, 40) if tier == "quick" else (120, 80)
     mwh(binp, ["qsweep", qs, seed, runs, steps, 15])
     n, fs, wall = small_trace_check("QueryTrace", qs, wd, timeout=1800)
     kinds = {}
@@ -716,7 +720,7 @@ def hook_c17(binp, tier, seed, wd):
 def hook_c18(binp, tier, seed, wd):
     extra, viols = {}, []
     mv = os.path.join(wd, "migvec.ndjson")
-    mwh(binp, ["migvec", seed, 4 if tier == "quick" else 40, mv])
+    mwh(binp, ["migvec", seed, 4 if tier == "quick" else 150, mv])
     n, fs, wall = small_trace_check("MigrateTrace", mv, wd)
     kinds = {}
     for ln in open(mv):
@@ -783,6 +787,34 @@ def hook_c14(binp, tier, seed, wd):
     return extra, viols
 
 
+def hook_c12(binp, tier, seed, wd):
+    """C12 without bounds: Apalache discharges the inductive invariant of spec/proofs/OwnershipInd.tla (arbitrary principals,
+    unbounded integer time) and refutes two deliberately false variants"""
+    extra, viols = {}, []
+    adir = os.path.join(wd, "apalache-own")
+    os.makedirs(adir, exist_ok=True)
+    shutil.copy(os.path.join(SPEC, "Ownership.tla"), adir)
+    shutil.copy(os.path.join(SPEC, "proofs", "OwnershipInd.tla"), adir)
+    res = {}
+    t0 = time.time()
+    for label, args, want_ok in [
+            ("Init => IndInv", ["--init=Init", "--inv=IndInv", "--length=0"], True),
+            ("IndInv /\\ Next => IndInv'", ["--init=IndInit", "--inv=IndInv", "--length=1"], True),
+            ("IndInv => Safe", ["--init=IndInit", "--inv=Safe", "--length=0"], True),
+            ("False_NeverChanges", ["--init=Init", "--inv=False_NeverChanges", "--length=3"], False),
+            ("False_EightDays", ["--init=Init", "--inv=False_EightDays", "--length=3"], False)]:
+        rc, out = sh(["apalache-mc", "check", "--cinit=ConstInit"] + args + ["OwnershipInd.tla"], cwd=adir, timeout=900)
+        ok = "EXITCODE: OK" in out
+        refuted = "EXITCODE: ERROR (12)" in out
+        if (want_ok and not ok) or (not want_ok and not refuted):
+            raise ToolError(f"Apalache OwnershipInd {label}: expected {'to hold' if want_ok else 'to be refuted'}\n" + out[-1500:])
+        res[label] = "holds (unbounded time, any principals among five names)" if want_ok else "refuted (sanity)"
+    shutil.rmtree(os.path.join(adir, "_apalache-out"), ignore_errors=True)
+    extra["apalache_inductive_invariant"] = res
+    log(f"[apalache] handover machine: inductive invariant discharged for unbounded time, 2 false variants refuted ({time.time()-t0:.1f}s)")
+    return extra, viols
+
+
 def liveness(cfgname, wd, expect_violation=None):
     """TLC liveness checking of spec/MilkyWayLive.tla on a CLOSED bounded model (no state constraint)"""
     rc, out, wall = tlc(os.path.join(SPEC, "MilkyWayLive.tla"), os.path.join(MC_DIR, cfgname + ".cfg"), wd, workers=4, timeout=1200, xmx="8g")
@@ -831,7 +863,7 @@ def hook_c16(binp, tier, seed, wd):
     return extra, viols
 
 
-HOOKS = {"C04": hook_c04, "C19": hook_c19, "C09": hook_c09, "C17": hook_c17, "C18": hook_c18, "C14": hook_c14, "C16": hook_c16,
+HOOKS = {"C12": hook_c12, "C04": hook_c04, "C19": hook_c19, "C09": hook_c09, "C17": hook_c17, "C18": hook_c18, "C14": hook_c14, "C16": hook_c16,
          "C06": hook_c06, "C07": hook_c07}
 
 
@@ -849,7 +881,7 @@ def run_property(prop, tier, seed):
     if prop in HOOKS:
         hook_extra, hook_viols = HOOKS[prop](binp, tier, seed, wd)
     # 1. the design satisfies the property (bounded, exhaustive)
-    mcs = [model_check(n, wd) for n in pl["mc"][tier]]
+    mcs = [model_check(n, wd, timeout=5400 if n.endswith("deep_t") else 1500) for n in pl["mc"][tier]]
     for r in pl["reach"]:
         reach_check(r, wd)
     # 2. TLC-generated transitions replayed through the real code
